@@ -19,6 +19,7 @@ def yld(x=None): return {"e": "yield", "x": x}
 def add(l, r): return {"e": "add", "l": l, "r": r}
 def useq(k): return {"e": "useq", "k": k}
 def obj(k): return {"e": "obj", "k": k}
+def headof(v): return {"e": "headof", "v": v}       # v.head : an attribute read with an observable effect
 def call(k, *args): return {"e": "call", "k": k, "args": list(args)}
 def lam(x): return {"e": "lambda", "x": x}
 def comp(v, k, x): return {"e": "comp", "v": v, "k": k, "x": x}
@@ -77,6 +78,8 @@ def p_expr(e, twin):
         return f"U({e['k']})"
     if k == "obj":
         return f"O({e['k']})"
+    if k == "headof":
+        return f"{e['v']}.head"
     if k == "call":
         return f"F({e['k']}" + "".join(", " + p_expr(a, twin) for a in e["args"]) + ")"
     if k == "lambda":
